@@ -412,6 +412,31 @@ def fingerprint(o, memo=None):
     return '%s@%x' % (type(o).__name__, id(o))
 
 
+def shape(o, memo=None):
+    """structure of a result with every symbolic term replaced by a placeholder (two results of the same shape can be compared term by term)"""
+    if memo is None:
+        memo = set()
+    if isinstance(o, z3.ExprRef) or _has_t(o):
+        return 't'
+    if isinstance(o, _PRIM):
+        return repr(o)
+    if id(o) in memo:
+        return '<cycle>'
+    memo.add(id(o))
+    if isinstance(o, dict):
+        return '{' + ','.join(shape(a, memo) + ':' + shape(b, memo) for a, b in o.items()) + '}'
+    if isinstance(o, (list, tuple)):
+        return '[' + ','.join(shape(x, memo) for x in o) + ']'
+    if isinstance(o, (set, frozenset)):
+        return 's[' + ','.join(sorted(shape(x, memo) for x in o)) + ']'
+    if isinstance(o, np.ndarray):
+        return 'a%r[' % (o.shape,) + ','.join(shape(x, memo) for x in o.flat) + ']'
+    d = getattr(o, '__dict__', None)
+    if d is not None and (getattr(type(o), '__module__', '') or '').startswith(('geodepy', 'vp.', 'props')):
+        return type(o).__name__ + shape(d, memo)
+    return type(o).__name__
+
+
 def state_fingerprint():
     return '|'.join(fingerprint(e['obj'] if e['kind'] == 'container' else getattr(e['owner'], e['name'])) for e in STATE)
 
